@@ -85,6 +85,7 @@ type LoopSpec struct {
 	Ordinal    int
 	Invariants []*Clause
 	Decreases  *Clause
+	Increases  []*Clause // expressions that must be strictly larger on every back edge than at the header
 }
 
 type CallAssert struct {
@@ -118,6 +119,7 @@ type FuncSpec struct {
 	Used      bool
 	Fresh     bool // result is a freshly allocated reference
 	Holds     []HoldDecl
+	Waive     []string // obligations of this function whose name contains one of these labels are not generated (documented gaps)
 	NoSweep   []string // sweep kinds not generated for this function (reason goes to DESIGN.md / evidence)
 	Counted   []string // ghost counters bumped by the engine at every call of this function
 	Helper    bool // internal helper: type invariants are neither assumed nor checked at its boundary
@@ -168,6 +170,8 @@ type PredSpec struct {
 }
 
 type GhostSpec struct {
+	Stable   bool // changed only through explicit modifies clauses, never by calls to unknown code
+	Monotone bool // never decreases (Int) / never becomes false again (Bool): survives calls to unknown code as such
 	Pkg    string
 	Name   string
 	Params []Param // empty => scalar global
@@ -611,7 +615,7 @@ var clauseKeywords = map[string]bool{
 	"pred": true, "fun": true, "lemma": true, "ghost": true, "func": true, "extern": true, "type": true,
 	"callspec": true, "requires": true, "ensures": true, "modifies": true, "pure": true, "function": true, "inline": true,
 	"trusted": true, "loop": true, "before": true, "sweep": true, "guarded": true, "final": true, "atomic": true,
-	"confined": true, "private": true, "owns": true, "holds": true, "helper": true, "counted": true, "sweepscope": true, "nosweep": true, "hb-by-channel": true, "invariant": true, "ctor": true, "params": true, "fresh": true, "end": true,
+	"confined": true, "private": true, "owns": true, "holds": true, "helper": true, "counted": true, "sweepscope": true, "nosweep": true, "waive": true, "hb-by-channel": true, "invariant": true, "ctor": true, "params": true, "fresh": true, "end": true,
 }
 
 type rawClause struct {
@@ -817,6 +821,14 @@ func parseSpecFile(path string, pkgPath string) (*SpecFile, error) {
 					}
 				}()
 				g.Name = p.ident()
+				if g.Name == "monotone" {
+					g.Monotone = true
+					g.Name = p.ident()
+				}
+				if g.Name == "stable" {
+					g.Stable = true
+					g.Name = p.ident()
+				}
 				if p.isOp("(") {
 					g.Params = p.parseParams()
 				}
@@ -900,6 +912,10 @@ func parseSpecFile(path string, pkgPath string) (*SpecFile, error) {
 			if f := target(); f != nil {
 				f.Fresh = true
 			}
+		case "waive":
+			if curF != nil {
+				curF.Waive = append(curF.Waive, splitNames(rest)...)
+			}
 		case "nosweep":
 			if curF != nil {
 				curF.NoSweep = append(curF.NoSweep, splitNames(rest)...)
@@ -976,6 +992,8 @@ func parseSpecFile(path string, pkgPath string) (*SpecFile, error) {
 			}
 			if k2 == "invariant" {
 				ls.Invariants = append(ls.Invariants, c)
+			} else if k2 == "increases" {
+				ls.Increases = append(ls.Increases, c)
 			} else if k2 == "decreases" {
 				ls.Decreases = c
 			} else {
